@@ -468,6 +468,45 @@ def run_case(case, fail, stats):
                 fail("C12", "restored-manager-computes-other-dependants", {"defs": case["defs"], "nested": nested, "follow": case["follow"],
                                                                              "original": a1[1], "copy": a2[1]})
                 break
+    elif kind == "genfun":
+        # C13 over the full expression language: f(*values) on one manager vs assigning the values one by one on a twin
+        env, env2 = Env(case["vals"]), Env(case["vals"])
+        for e in (env, env2):
+            del e.box["o"]
+        for i, t in enumerate(case["defs"]):
+            nm = "out%d" % i
+            rs = []
+            for e in (env, env2):
+                e.box[nm] = None
+                rs.append(outcome(lambda: e.r.__setitem__(nm, e.build(t)) if isinstance(e.build(t), R.BaseRef)
+                                  else (_ for _ in ()).throw(ValueError())))
+            if rs[0][0] != "ok" or rs[1][0] != "ok":
+                return
+        stats["genfun_cases"] = stats.get("genfun_cases", 0) + 1
+        names = [a[0] for a in case["args"]]
+        made = outcome(lambda: env.m.gen_fun("f", **{"x%d" % i: env.r[nm] for i, nm in enumerate(names)}))
+        if made[0] != "ok":
+            fail("C13", "gen_fun-raises", {"defs": case["defs"], "args": names, "exc": made[1]})
+            return
+        r1 = outcome(lambda: made[1](*[val_py(a[1]) for a in case["args"]]))
+        r2 = ("ok", None)
+        for nm, vj in case["args"]:
+            r2 = outcome(lambda: env2.r.__setitem__(nm, val_py(vj)))
+            if r2[0] != "ok":
+                break
+        if r1[0] == "exc" and r1[1] == "ZeroDivisionError":
+            return          # excluded by the property (the generated code runs Python's unguarded operators)
+        if r2[0] != "ok":
+            return          # the manager itself raises on this history: nothing to compare with
+        if r1[0] != "ok":
+            fail("C13", "generated-function-raises", {"defs": case["defs"], "args": case["args"], "exc": r1[1],
+                                                      "source": env.m.mk_fun("f", **{"x%d" % i: env.r[nm] for i, nm in enumerate(names)})})
+            return
+        s1, s2 = snapshot(env.box), snapshot(env2.box)
+        if s1 != s2 and "nan" not in json.dumps([s1, s2]):
+            fail("C13", "function-differs-from-assignments", {"defs": case["defs"], "args": case["args"],
+                                                              "via_function": s1, "via_manager": s2,
+                                                              "source": env.m.mk_fun("f", **{"x%d" % i: env.r[nm] for i, nm in enumerate(names)})})
     elif kind == "eqhash":
         m = xdeps.Manager()
         c = m.ref({}, case.get("label", "c"))
@@ -909,6 +948,26 @@ def cases_c05(rng, n):
                "term": t, "perturb": ["v1", {"int": 2}]}
 
 
+def cases_c13(rng, n):
+    # operator precedence in the printed source: unary operators under ** and as call / item heads
+    fixed = [["bin", "pow", ["un", "invert", ["ref", "v1"]], ["lit", {"int": 2}]],
+             ["bin", "pow", ["un", "neg", ["ref", "v1"]], ["lit", {"int": 2}]],
+             ["bin", "pow", ["lit", {"int": -3}], ["ref", "v1"]],
+             ["bin", "sub", ["lit", {"int": 1}], ["un", "neg", ["ref", "v1"]]],
+             ["bin", "mul", ["un", "invert", ["ref", "v1"]], ["un", "pos", ["ref", "v3"]]],
+             ["builtin", "round", ["bin", "truediv", ["ref", "v0"], ["ref", "v3"]], [["lit", {"int": 1}]]],
+             ["builtin", "floor", ["ref", "v0"], []], ["builtin", "abs", ["un", "neg", ["ref", "v0"]], []],
+             ["call", "fadd", [["ref", "v0"]], [["y", ["ref", "v1"]]]]]
+    vals0 = {"v0": {"float": (12.345).hex()}, "v1": {"int": 3}, "v2": {"int": 5}, "v3": {"int": 2}}
+    for t in fixed:
+        yield {"kind": "genfun", "vals": vals0, "defs": [t], "args": [["v1", {"int": 5}], ["v0", {"float": (2.5).hex()}]]}
+    for i in range(n):
+        vals = gen_vals(rng, ["int", "float"])
+        defs = [gen_term(rng, rng.randint(1, 4)) for _ in range(rng.randint(1, 3))]
+        args = [[nm, gen_val(rng, rng.choice(["int", "float"]))] for nm in rng.sample(NAMES, rng.randint(1, 3))]
+        yield {"kind": "genfun", "vals": vals, "defs": defs, "args": args}
+
+
 def cases_c12(rng, n):
     for t in [["builtin", "abs", ["ref", "v0"], []], ["builtin", "round", ["ref", "v0"], []],
               ["builtin", "round", ["ref", "v0"], [["lit", {"int": 1}]]], ["builtin", "floor", ["ref", "v0"], []],
@@ -1083,7 +1142,7 @@ def main():
     if a.replay:
         cases = [c for ops in json.load(open(a.replay)) for c in ops]
     else:
-        gen = {"c04": cases_c04, "c05": cases_c05, "c12": cases_c12, "c06": cases_c06, "c11": cases_c11}[a.family]
+        gen = {"c04": cases_c04, "c05": cases_c05, "c12": cases_c12, "c06": cases_c06, "c11": cases_c11, "c13": cases_c13}[a.family]
         cases = list(gen(rng, a.n))
         if not a.fixed:
             # the exhaustive prefix is generated by every job with the same content: keep it in job 0 only
